@@ -123,7 +123,7 @@ func cmdFunc(args []string) int {
 				for _, o := range fr.Obls {
 					good := o.Status == "unsat"
 					if o.ExpectSat {
-						good = o.Status != "unsat" && o.Status != "error"
+						good = (o.Status != "unsat" || o.UnreachableOK) && o.Status != "error"
 					}
 					if good {
 						ok++
@@ -337,6 +337,7 @@ func report(p *Program, prop, tier string, seed int, frs []*FuncResult, extra *E
 	byBackend := map[string]int{}
 	var failed []*Obligation
 	var vacuity []*Obligation
+	var deadReturns []string
 	var toolErr []*Obligation
 	assumed := map[string]bool{}
 	abstract := map[string]bool{}
@@ -396,6 +397,11 @@ func report(p *Program, prop, tier string, seed int, frs []*FuncResult, extra *E
 			covers++
 			switch o.Status {
 			case "unsat":
+				if o.UnreachableOK {
+					deadReturns = append(deadReturns, o.Name)
+					coversOK++
+					continue
+				}
 				vacuity = append(vacuity, o)
 			case "error":
 				toolErr = append(toolErr, o)
@@ -486,6 +492,7 @@ func report(p *Program, prop, tier string, seed int, frs []*FuncResult, extra *E
 		"covers_checked":           covers,
 		"covers_satisfiable":       coversOK,
 		"abstractions":             sortedKeys(abstract),
+		"dead_return_sites":        deadReturns,
 		"samples":                  samples,
 	}
 	if extra != nil && len(extra.Bounded) > 0 {
